@@ -13,6 +13,7 @@
 #ifndef VERIF_LIFTED_PROBE_HPP
 #define VERIF_LIFTED_PROBE_HPP
 #include <cstdlib>
+#include <ostream>
 
 namespace pr
 {
@@ -50,6 +51,9 @@ namespace pr
         Probe& operator/=(const Probe& o) { ++evals; if (o.v == 0) std::abort(); v = wrap((long long)v / o.v); return *this; }
         Probe& operator%=(const Probe& o) { ++evals; if (o.v == 0) std::abort(); v = wrap((long long)v % o.v); return *this; }
     };
+
+    // printing a Probe is not an evaluation
+    template <class C, class T> inline std::basic_ostream<C, T>& operator<<(std::basic_ostream<C, T>& os, const Probe& p) { return os << p.v; }
 
     // ---- REAL operators (integer semantics; C++ division truncates towards zero)
     inline Probe operator+(const Probe& a) { ++evals; return a; }
